@@ -100,8 +100,8 @@ def run(ctx):
         ctx.count("corpus")
         ctx.case({"lib": c["lib"], "target": c["target"]}, nontrivial=True)
         check_case(ctx, dict(lib=c["lib"], target=c["target"]), drv, "corpus")
-    n_main = 300 if quick else 5000
-    n_find = 25 if quick else 400
+    n_main = 450 if quick else 6000
+    n_find = 40 if quick else 500
     done_main = done_find = 0
     tries = 0
     while done_main < n_main and tries < 20 * n_main:
